@@ -444,32 +444,15 @@ Proof. exact (@store_total). Qed.
 Print Assumptions C03_store_total.
 
 (* ---- stage 3: non-vacuity ---- *)
-(* a concrete byte layout meeting the four premises: itemsize 2/4/8; an element = its value followed by zero
-   bytes; the header = number of dimensions, the dimensions, a dtype code *)
-Definition ex_isz (d : dtype) : Z := match d with I16 => 2 | F32 => 4 | F64 => 8 end.
-Definition ex_tob (d : dtype) (a : Z) : list Z := a :: repeat 0 (Z.to_nat (ex_isz d - 1)).
-Definition ex_fromb (d : dtype) (b : list Z) : option Z := hd_error b.
-Definition ex_code (d : dtype) : Z := match d with I16 => 2 | F32 => 4 | F64 => 8 end.
-Definition ex_hdr (shape : list Z) (d : dtype) : list Z := zlen shape :: shape ++ [ex_code d].
-Definition ex_parse (f : list Z) : option (list Z * dtype * list Z) :=
-  match f with
-  | [] => None
-  | k :: r => match skipn (Z.to_nat k) r with
-              | code :: rest =>
-                  match (if code =? 2 then Some I16 else if code =? 4 then Some F32 else if code =? 8 then Some F64 else None) with
-                  | Some d => Some (firstn (Z.to_nat k) r, d, rest)
-                  | None => None
-                  end
-              | [] => None
-              end
-  end.
+(* the concrete byte layout of ModelNpy.v (lay_*: itemsize 2/4/8; an element = its value followed by zero bytes;
+   the header = number of dimensions, the dimensions, a dtype code) meets the premises *)
 Example C03_ex_bytes_premises :
-  (forall shape d rest, ex_parse (ex_hdr shape d ++ rest) = Some (shape, d, rest)) /\
-  (forall d a, zlen (ex_tob d a) = ex_isz d) /\ (forall d, 1 <= ex_isz d) /\
-  (forall d a, ex_fromb d (ex_tob d a) = Some a) /\ (forall d a b, ex_tob d a = ex_tob d b -> a = b).
+  (forall shape d rest, lay_parse (lay_hdr shape d ++ rest) = Some (shape, d, rest)) /\
+  (forall d a, zlen (lay_tob d a) = lay_isz d) /\ (forall d, 1 <= lay_isz d) /\
+  (forall d a, lay_fromb d (lay_tob d a) = Some a) /\ (forall d a b, lay_tob d a = lay_tob d b -> a = b).
 Proof.
   repeat split.
-  - intros shape d rest. unfold ex_parse, ex_hdr. cbn [app]. unfold zlen. rewrite Nat2Z.id, <- app_assoc.
+  - intros shape d rest. unfold lay_parse, lay_hdr. cbn [app]. unfold zlen. rewrite Nat2Z.id, <- app_assoc.
     rewrite skipn_app, Nat.sub_diag, skipn_all, firstn_app, Nat.sub_diag, firstn_all. cbn [app skipn firstn].
     rewrite app_nil_r. destruct d; reflexivity.
   - intros d a. destruct d; reflexivity.
@@ -480,28 +463,28 @@ Qed.
 Definition ex_row (v : Z) : ndarr Z := mkarr [1; 1; 2] F64 [v; v + 1].
 Definition ex_empty : ndarr Z := mkarr [0; 1; 2] F64 [].
 Example C03_ex_npy_exact :
-  option_map (np_load_bytes ex_isz ex_fromb ex_parse) (npy_file ex_tob ex_hdr [2; 1; 2] F64 [ex_empty; ex_row 5; ex_empty; ex_row 7]) =
+  option_map (np_load_bytes lay_isz lay_fromb lay_parse) (npy_file lay_tob lay_hdr [2; 1; 2] F64 [ex_empty; ex_row 5; ex_empty; ex_row 7]) =
     Some (Some ([2; 1; 2], F64, [5; 6; 7; 8])) /\
   export_assert [2; 1; 2] [ex_empty; ex_row 5; ex_empty; ex_row 7] = true /\
   (* no chunk at all under a declared (0, 1, 2): loads as the empty array *)
-  option_map (np_load_bytes ex_isz ex_fromb ex_parse) (npy_file ex_tob ex_hdr [0; 1; 2] F64 []) = Some (Some ([0; 1; 2], F64, [])).
+  option_map (np_load_bytes lay_isz lay_fromb lay_parse) (npy_file lay_tob lay_hdr [0; 1; 2] F64 []) = Some (Some ([0; 1; 2], F64, [])).
 Proof. vm_compute. repeat split; reflexivity. Qed.
 (* one row short: np.load fails; one row too many: loads, the last row is lost, and the assertion is false;
    an int16 payload of the right element count under the float64 header: fails; a chunk with other trailing
    dimensions: append asserts *)
 Example C03_ex_npy_otherwise :
-  option_map (np_load_bytes ex_isz ex_fromb ex_parse) (npy_file ex_tob ex_hdr [2; 1; 2] F64 [ex_row 5]) = Some None /\
-  option_map (np_load_bytes ex_isz ex_fromb ex_parse) (npy_file ex_tob ex_hdr [2; 1; 2] F64 [ex_row 5; ex_row 7; ex_row 9]) =
+  option_map (np_load_bytes lay_isz lay_fromb lay_parse) (npy_file lay_tob lay_hdr [2; 1; 2] F64 [ex_row 5]) = Some None /\
+  option_map (np_load_bytes lay_isz lay_fromb lay_parse) (npy_file lay_tob lay_hdr [2; 1; 2] F64 [ex_row 5; ex_row 7; ex_row 9]) =
     Some (Some ([2; 1; 2], F64, [5; 6; 7; 8])) /\
   export_assert [2; 1; 2] [ex_row 5; ex_row 7; ex_row 9] = false /\
-  option_map (np_load_bytes ex_isz ex_fromb ex_parse)
-    (npy_file ex_tob ex_hdr [2; 1; 2] F64 [mkarr [2; 1; 2] I16 [5; 6; 7; 8]]) = Some None /\
-  npy_file ex_tob ex_hdr [2; 1; 2] F64 [mkarr [1; 2; 1] F64 [5; 6]] = None.
+  option_map (np_load_bytes lay_isz lay_fromb lay_parse)
+    (npy_file lay_tob lay_hdr [2; 1; 2] F64 [mkarr [2; 1; 2] I16 [5; 6; 7; 8]]) = Some None /\
+  npy_file lay_tob lay_hdr [2; 1; 2] F64 [mkarr [1; 2; 1] F64 [5; 6]] = None.
 Proof. vm_compute. repeat split; reflexivity. Qed.
 (* the export of C03_ex_export at the byte level *)
 Example C03_ex_export_bytes :
-  option_map (fun p => (np_load_bytes ex_isz ex_fromb ex_parse (fst p), snd p))
-    (export_bytes 0 (fun v => v * 5) ex_tob ex_hdr ex_data 2 [mkiv 0 2; mkiv 2 3] [mkspike 0 [0; 1]; mkspike 2 [1; -1]] 2 PyFloat) =
+  option_map (fun p => (np_load_bytes lay_isz lay_fromb lay_parse (fst p), snd p))
+    (export_bytes 0 (fun v => v * 5) lay_tob lay_hdr ex_data 2 [mkiv 0 2; mkiv 2 3] [mkspike 0 [0; 1]; mkspike 2 [1; -1]] 2 PyFloat) =
   Some (Some ([2; 2; 2], F64, [0; 0; 5; 10; 60; 0; 110; 0]), true).
 Proof. vm_compute. reflexivity. Qed.
 (* the boundary "sorted": the vector [2; 0] over the chunks [0,2) [2,3) comes out in CHUNK order (spike 0
